@@ -445,8 +445,13 @@ pub fn run(ctx: &Ctx) -> Result<Evidence, String> {
                 let rv = to_vec(&doc.j, true);
                 if let (Ok((want, flags, _)), Ok(got)) = (eval_locs(ast, &rj, Dev::default()), run_at(q, &rv, &from_vec)) {
                     if !(flags.u2 || flags.u3 || flags.u5) {
-                        let want_paths: Vec<String> = want.iter().map(|l| npath::render(l)).collect();
-                        let got_paths: Vec<String> = got.iter().map(|x| x.0.clone()).collect();
+                        let mut want_paths: Vec<String> = want.iter().map(|l| npath::render(l)).collect();
+                        let mut got_paths: Vec<String> = got.iter().map(|x| x.0.clone()).collect();
+                        if ast.segments.iter().any(|s| s.descendant) {
+                            // the traversal order of descendants is only partially fixed (C02)
+                            want_paths.sort();
+                            got_paths.sort();
+                        }
                         acc.count("reordered_view_checks", 1);
                         if want_paths != got_paths {
                             let t = crate::judge::triggers(&p);
